@@ -51,13 +51,25 @@ pub struct Case {
 const STR_ATOMS: &[&str] = &["a", "é", "日本", "12", " ", "+", "😀", "\"x\"", "ß", "\n"];
 const BYTE_ATOMS: &[&[u8]] = &[b"a", b"12", b" ", b"\x00", b"\x80\xff", b"<a>", b"\xc3\xa9"];
 
+/// chars whose encodings hold the extreme lead and continuation byte values (0x80 / 0xBF in every position)
+pub const EDGE_CHARS: &[char] = &[
+    '\u{80}', '\u{bf}', '\u{ff}', '\u{7ff}', '\u{800}', '\u{fff}', '\u{d7ff}', '\u{e000}', '\u{feff}', '\u{fffd}', '\u{ffff}', '\u{10000}',
+    '\u{3ffff}', '\u{10ffff}', '\u{2028}', '\u{a0}',
+];
+
+pub fn edge_char() -> BoxedStrategy<char> {
+    prop_oneof![2 => proptest::sample::select(EDGE_CHARS), 1 => any::<char>()].boxed()
+}
+
 pub fn case_strategy() -> BoxedStrategy<Case> {
-    (0u8..4, any::<bool>(), vec(any::<u8>(), 0..8), 0u8..5, vec(n_strategy(), 1..5))
+    (0u8..4, any::<bool>(), vec((any::<u8>(), proptest::option::weighted(0.3, edge_char())), 0..8), 0u8..5, vec(n_strategy(), 1..5))
         .prop_map(|(source_kind, bytes_mode, atoms, nexts, bumps)| {
             let mut input = Vec::new();
-            for a in atoms {
+            for (a, c) in atoms {
                 if bytes_mode {
                     input.extend_from_slice(BYTE_ATOMS[(a as usize * BYTE_ATOMS.len()) >> 8]);
+                } else if let Some(c) = c {
+                    input.extend_from_slice(c.encode_utf8(&mut [0; 4]).as_bytes());
                 } else {
                     input.extend_from_slice(STR_ATOMS[(a as usize * STR_ATOMS.len()) >> 8].as_bytes());
                 }
